@@ -433,6 +433,10 @@ def e2e_worker(case):
     out = {"case": case}
     with tempfile.TemporaryDirectory(dir=common.SCRATCH, prefix="c13_") as d:
         kinds = {"snp": 5, "mnp": 1, "ins": 2, "del": 3}
+        if case.get("plant_delins"):
+            # deletion-insertions: the shipped loader refuses them on a minus-strand database (gene.py _reverse_op asserts), so on the
+            # unchanged tree these cases are skipped; a tree that accepts them has to place them at the same RefSeq site in both builds
+            kinds = {"snp": 4, "del": 1, "delins": 4}
         y, desc = gendb.write_db(d, rng, name="GEN", strands=case["strands"], simulation_friendly=case["friendly"], pseudogene=case["pseudogene"],
                                  deletion=case["deletion"], fusions=("left",) if case.get("plant_brk") else (), n_alleles=rng.choice([4, 5, 6]),
                                  length=rng.choice([300, 400, 500]), kinds=({"snp": 8} if case.get("plant_union") else kinds),
@@ -486,14 +490,27 @@ def e2e_worker(case):
             for b in desc["builds"].values():
                 b["alleles"]["82.001"] = [list(gendb._to_genome(b, N, i, sop))]
             open(y, "w").write(gendb._yaml(desc))
-        if gendb.selfcheck(y, desc):
-            return dict(out, skipped="selfcheck")
+        try:
+            # the generator's description against what Gene() loads: a discrepancy means the generator and the loader read the database
+            # differently, and the case is skipped - except for the deletion-insertion cases, where the unchanged loader agrees with
+            # the generator on both strands: there the two builds are compared whatever the loader makes of the database
+            if gendb.selfcheck(y, desc) and not case.get("plant_delins"):
+                return dict(out, skipped="selfcheck")
+        except AssertionError:
+            if case.get("plant_delins"):
+                return dict(out, skipped="loader-rejects-delins-on-this-strand")
+            raise
         norm = [a for a, v in desc["alleles"].items() if v["kind"] == "normal"]
         dele = [a for a, v in desc["alleles"].items() if v["kind"] == "deletion"]
         if case["n_copies"] == 1 and dele:
             alleles = [rng.choice(norm), dele[0]]
         else:
             alleles = [rng.choice(norm) for _ in range(max(2, case["n_copies"]))]
+        if case.get("plant_delins"):
+            wd = [a for a in norm if any("ins" in v[1] and v[1].startswith("del") for v in desc["alleles"][a]["variants"])]
+            if not wd:
+                return dict(out, skipped="no-delins-allele")
+            alleles = [rng.choice(wd), rng.choice(norm)]
         if case.get("plant_same_site"):
             alleles = ["80.001", "81.001"]
         elif case.get("plant_edge"):
@@ -610,6 +627,11 @@ def generated_stream(chk, n, timeout_s):
     for k in range(min(4, n)):
         c = gen_case(rng, f"brk-{k}")
         c.update(strands=["+-", "-+", "++", "--"][k], friendly=True, plant_brk=True, pseudogene=True, deletion=False, n_copies=2, indelpost=(k % 2 == 0), evidence="mirrored")
+        cases.append(c)
+    for k in range(min(3, n)):
+        c = gen_case(rng, f"delins-{k}")
+        c.update(strands=["+-", "-+", "--"][k], friendly=True, plant_delins=True, pseudogene=False, deletion=False, n_copies=2,
+                 indelpost=True, evidence="mirrored", phase=False)
         cases.append(c)
     for k in range(min(4, n)):
         c = gen_case(rng, f"phase-decides-{k}")
